@@ -60,6 +60,13 @@ def impl_vector_field(case):
                     c = CircuitTemplate.from_yaml(os.path.join(os.getcwd(), "ymod", "model", case["yaml_root"]))
                 else:
                     c, ops, nts = M.build_pyrates(mdl, style=case.get("style"))
+                other, other_before = None, None
+                if case.get("other_holder") and getattr(c, "nodes", None):
+                    # the node templates of this circuit are also held by a second circuit: overrides addressed to this circuit's nodes must not reach it
+                    from pyrates import CircuitTemplate as _CT
+                    from .props.c14 import snap_node
+                    other = _CT(name="other_holder", nodes=dict(c.nodes), edges=[], path=None)
+                    other_before = {l: snap_node(nt) for l, nt in other.nodes.items()}
                 for path, val in mdl.get("post_values", {}).items():       # update_var after construction (C07)
                     c.update_var(node_vars={path: float(F(val))})
                 extra_kw = {}
@@ -126,8 +133,13 @@ def impl_vector_field(case):
                     for p, idx in smap.items():
                         d[p] = C.f2s(dy[idx[0]] if isinstance(idx, tuple) else dy[idx])
                     out.append(d)
-                return {"layout": layout, "args": argvals, "y0": {p: C.f2s(y0[idx[0]] if isinstance(idx, tuple) else y0[idx]) for p, idx in smap.items()},
+                res_ = {"layout": layout, "args": argvals, "y0": {p: C.f2s(y0[idx[0]] if isinstance(idx, tuple) else y0[idx]) for p, idx in smap.items()},
                         "dy": out, "n": int(n)}
+                if other is not None:
+                    from .props.c14 import snap_node
+                    after = {l: snap_node(nt) for l, nt in other.nodes.items()}
+                    res_["other_holder_changed"] = [l for l in other_before if other_before[l] != after.get(l)]
+                return res_
             except Exception as e:
                 return {"error": type(e).__name__, "msg": str(e)[:300], "stage": "evaluate"}
 
